@@ -38,7 +38,8 @@ pub fn strategy(tier: Tier) -> BoxedStrategy<Scenario> {
     ];
     let fail = prop_oneof![3 => Just(Fail::Err), 3 => Just(Fail::Panic), 2 => Just(Fail::Hang), 3 => Just(Fail::None)];
     let name = prop_oneof![2 => Just(None), 2 => Just(Some(0u8)), 3 => Just(Some(1u8))];
-    let spawn_how = prop_oneof![3 => Just(None), 4 => (0u8..6, prop_oneof![2 => Just(0u8), 3 => 1u8..6]).prop_map(Some)]; // cut after k polls, hold
+    // cut after k polls, hold; bit 7 of hold: the future is dropped while a panic unwinds (its owner panicked)
+    let spawn_how = prop_oneof![3 => Just(None), 4 => (0u8..6, prop_oneof![2 => Just(0u8), 3 => 1u8..6], prop::bool::weighted(0.3)).prop_map(|(k, h, u)| Some((k, if u { h | 0x80 } else { h })))];
     let disturb = prop_oneof![
         3 => Just(vec![]),
         2 => (0usize..10).prop_map(|d| { let mut v = vec![Op::Yield; d]; v.push(Op::Kill(F)); v }),
@@ -286,6 +287,6 @@ impl Part for C08 {
         }
     }
     fn rule() -> &'static str {
-        "generated spawn under test (8 variants incl. thread-local and instant; no name / a taken name / a free name; linked to a supervisor that may be draining, stopping or killed) whose pre_start performs generated side effects (group joins, group monitoring, link to a third actor, sends, self-sends, leaked myself used by clients that queue casts and calls) before failing by Err, panic, external kill, task abort, supervisor refusal, or by the spawning future being dropped after k polls (cut-point injection), followed by a late attempt to link the dead actor under a live one; oracle = residue predicate over registries, groups, links, supervision logs, queued calls and waiters at quiescence + name reuse + holder untouched; non-trivial = the start failed after pre_start had begun and performed >=1 side effect"
+        "generated spawn under test (8 variants incl. thread-local and instant; no name / a taken name / a free name; linked to a supervisor that may be draining, stopping or killed) whose pre_start performs generated side effects (group joins, group monitoring, link to a third actor, sends, self-sends, leaked myself used by clients that queue casts and calls) before failing by Err, panic, external kill, task abort, supervisor refusal, or by the spawning future being dropped after k polls (cut-point injection; in 30% of these the drop happens while a panic of the owning task unwinds), followed by a late attempt to link the dead actor under a live one; oracle = residue predicate over registries, groups, links, supervision logs, queued calls and waiters at quiescence + name reuse + holder untouched; non-trivial = the start failed after pre_start had begun and performed >=1 side effect"
     }
 }
